@@ -103,6 +103,79 @@ def gen_env(rng):
     return {k: rng.choice(vals) for k in ('READOUT', 'MICROWAVE', 'FLUX', 'RESET')}
 
 
+def _w(q, d, ch='ALL', rel=None):
+    return {'t': 'leaf', 'cls': 'Wait', 'q': [q], 'dur': ['fixed', d], 'ch': ch, 'rel': rel}
+
+
+def _g(cls, q, rel=None, **kw):
+    c = {'t': 'leaf', 'cls': cls, 'q': q if isinstance(q, list) else [q], 'rel': rel}
+    c.update(kw)
+    return c
+
+
+def gen_structured(rng):
+    """Shapes that uniform random generation meets rarely and that several regressions needed to manifest (DESIGN.md section 10):
+    parallel first blocks of unequal length inside a repeated block inside a repeated block, with an operation that follows the first
+    of them; a repeated block that starts with a plain operation and contains a repeated block; two relation branches of unequal
+    depth and length that meet through a barrier; a long chain beside a short operation followed by a repeated two-qubit-wide block;
+    an operation JOINED_END to a shorter one inside a doubly nested block that ends last."""
+    ds = [0.25, 0.5, 1.0, 2.0, 3.0, 5.0]
+    shape = rng.choice(['parallel', 'parallel', 'plain-first', 'two-branch', 'chain-then-block', 'early-start'])
+    if shape == 'parallel':
+        da, db = rng.sample(ds, 2)
+        blocks = [{'t': 'sub', 'reps': rng.choice([1, 1, 2]), 'body': [_w(0, da)] * rng.randint(1, 2)},
+                  {'t': 'sub', 'reps': rng.choice([1, 1, 2]), 'body': [_w(1, db)] * rng.randint(1, 3)}]
+        if rng.random() < 0.3:
+            blocks.append({'t': 'sub', 'reps': 1, 'body': [_g('Rx180', 2)]})
+        tail = []
+        r = rng.random()
+        if r < 0.4:
+            tail.append(_w(rng.choice([0, 2, 3]), rng.choice(ds), rel=[rng.choice('FFSE'), 0]))       # explicitly after the FIRST block
+        elif r < 0.7:
+            tail.append(_g('Rx90', 0))                                                                # implicitly after the first block
+        if rng.random() < 0.5:
+            tail.append(_g(rng.choice(['DispersiveMeasure', 'Ry90']), rng.choice([0, 1]), **({})))
+        for t in tail:
+            if t['cls'] == 'DispersiveMeasure':
+                t['tag'] = ''
+        inner = {'t': 'sub', 'reps': rng.choice([1, 2, 2, 3]), 'body': blocks + tail}
+        body = ([_g('Rx180', rng.choice([0, 1]))] if rng.random() < 0.3 else []) + [inner] + ([_w(0, 1.0)] if rng.random() < 0.3 else [])
+        prog = [{'t': 'sub', 'reps': rng.choice([1, 2, 2, 3]), 'body': body}] if rng.random() < 0.7 else body
+    elif shape == 'plain-first':
+        q = 0
+        inner = {'t': 'sub', 'reps': rng.choice([2, 2, 3]), 'body': [_w(q, rng.choice(ds))] * rng.randint(1, 2)}
+        body = [_w(q, rng.choice(ds))] + ([_g('Rx180', 1)] if rng.random() < 0.4 else []) + [inner]
+        prog = [{'t': 'sub', 'reps': rng.choice([2, 3, 3, 4]), 'body': body}, _w(q, 1.0)]
+        if rng.random() < 0.3:
+            prog = [{'t': 'sub', 'reps': 1, 'body': prog}]
+    elif shape == 'two-branch':
+        prog = []
+        n1 = rng.randint(1, 3)
+        for br, (n, dd) in ((1, (n1, [5.0, 3.0])), (2, (n1 + rng.randint(1, 4), [0.25, 0.5, 1.0]))):
+            prog += [_w(br, rng.choice(dd)) for _ in range(n)] + [_g('Barrier', sorted([0, br]))]
+            prog += [_g(rng.choice(['DispersiveMeasure', 'Rx180', 'Wait']), 0)]
+        for t in prog:
+            if t['cls'] == 'DispersiveMeasure':
+                t['tag'] = ''
+            if t['cls'] == 'Wait' and 'dur' not in t:
+                t.update(dur=['fixed', 1.0], ch='ALL')
+        if rng.random() < 0.4:
+            prog = [{'t': 'sub', 'reps': rng.choice([1, 2]), 'body': prog}]
+    elif shape == 'chain-then-block':
+        n = rng.choice([2, 3, 6, 7])
+        head = [_g('Rx180', 0) for _ in range(n)] + [_w(1, rng.choice([0.5, 1.0]))]
+        block = {'t': 'sub', 'reps': rng.choice([2, 3]), 'body': [_g('Rx90', 0), _w(1, rng.choice([3.0, 5.0]))] + ([_g('Ry90', 2)] if rng.random() < 0.4 else [])}
+        prog = ([{'t': 'sub', 'reps': 1, 'body': head}] if rng.random() < 0.5 else head) + [block]
+    else:   # early-start: an operation that starts before the first operation of a doubly nested block which ends last
+        a = _w(0, 1.0)
+        b = _w(1, rng.choice([2.0, 3.0, 5.0]), rel=['E', 0])
+        inner = {'t': 'sub', 'reps': 1, 'body': [a, b]}
+        mid = {'t': 'sub', 'reps': rng.choice([1, 2]), 'body': ([_w(0, 0.5)] if rng.random() < 0.5 else []) + [inner]}
+        prog = [mid, _w(0, 1.0)] + ([_g('Rx180', 1, rel=[rng.choice('FE'), 0])] if rng.random() < 0.5 else [])
+    import json as _json
+    return {'prog': _json.loads(_json.dumps(prog)), 'env': gen_env(rng), 'reg': {'k0': rng.choice(DURS), 'k1': rng.choice(DURS)}, 'shape': shape}
+
+
 def gen_case(rng, maxlen=10, depth=2, **kw):
     nq = rng.randint(1, 4)
     reg = {f"k{i}": rng.choice(DURS) for i in range(2)}
@@ -227,7 +300,7 @@ def c_obs(ob):
 
 
 IMPOSSIBLE = ("{| c_prog := []; c_env := mk_env 0 0 0 0 []; c_plain := Some {| o_ops := []; o_duration := 1; o_comps := [] |}; "
-              "c_plain_dur_first := None; c_unrolled := None; c_unrolled_twice := None; c_stable := false; c_reps_after := [] |}")
+              "c_plain_dur_first := None; c_unrolled := None; c_unrolled_twice := None; c_unrolled_dur_first := None; c_stable := false; c_reps_after := [] |}")
 
 
 def c_case(case, out):
@@ -239,7 +312,7 @@ def c_case(case, out):
     reps_after = clist([cz(x) for x in (out.get('unrolled') or {}).get('reps', [])])
     return (f"{{| c_prog := {prog}; c_env := {env}; c_plain := {c_obs(out.get('plain'))}; "
             f"c_plain_dur_first := {c_obs(out.get('plain_dur_first'))}; c_unrolled := {c_obs(out.get('unrolled'))}; "
-            f"c_unrolled_twice := {c_obs(out.get('unrolled_twice'))}; "
+            f"c_unrolled_twice := {c_obs(out.get('unrolled_twice'))}; c_unrolled_dur_first := {c_obs(out.get('unrolled_dur_first'))}; "
             f"c_stable := {cbool((out.get('plain') or {}).get('again', True))}; c_reps_after := {reps_after} |}}")
 
 
